@@ -99,7 +99,7 @@ PROPS = {
         'design_ref': 'DESIGN.md §6 C17',
     },
     'C15': {
-        'verus': ['cli_options', 'analyzer_run'],
+        'verus': ['cli_options', 'analyzer_run', 'interp_api'],
         'kani': [],
         'level': 'proof',
         'design_ref': 'DESIGN.md §5 U14, §6 C15',
